@@ -10,6 +10,16 @@ from gambatools.regexp_simpleVisitor import *
 from gambatools.regexp_simpleLexer import *
 
 
+from antlr4.error.ErrorListener import ErrorListener
+
+
+class RaiseErrorListener(ErrorListener):
+    """Turns syntax errors into exceptions (by default ANTLR reports them on stderr and continues parsing)"""
+
+    def syntaxError(self, recognizer, offendingSymbol, line, column, msg, e):
+        raise RuntimeError('syntax error in regular expression at position {}: {}'.format(column, msg))
+
+
 def concatenation(expressions):
     if len(expressions) == 1:
         return expressions[0]
@@ -55,8 +65,14 @@ class regexp_simpleVisitor(regexp_simpleVisitor):
 
 def parse_simple_regexp(text):
     lexer = regexp_simpleLexer(InputStream(text))
+    lexer.removeErrorListeners()
+    lexer.addErrorListener(RaiseErrorListener())
     stream = CommonTokenStream(lexer)
     parser = regexp_simpleParser(stream)
+    parser.removeErrorListeners()
+    parser.addErrorListener(RaiseErrorListener())
     tree = parser.expression()
+    if stream.LA(1) != Token.EOF:
+        raise RuntimeError('syntax error in regular expression: unexpected input at position {}'.format(stream.LT(1).column))
     visitor = regexp_simpleVisitor()
     return visitor.visit(tree)
